@@ -609,27 +609,29 @@ def pathMultiple (A : PArith F) (g : PathIn F) (startT : Int) (s : Osu) : M (Pat
   let iters ← inclusiveIters g.span 100000
   pathMultipleLoop A g interval legacy iters Pat.empty (getColumnSpecial g.total g.x) startT s1
 
+/-- the per-key-count caps of `generate_n_random_notes` -/
+def pathProbs (A : PArith F) (total : Nat) (p2 p3 p4 : F) : F × F × F :=
+  if total = 2 then (A.pct 0, A.pct 0, A.pct 0)
+  else if total = 3 then (A.min p2 (A.pct 10), A.pct 0, A.pct 0)
+  else if total = 4 then (A.min p2 (A.pct 30), A.min p3 (A.pct 4), A.pct 0)
+  else if total = 5 then (A.min p2 (A.pct 34), A.min p3 (A.pct 10), A.min p4 (A.pct 3))
+  else (p2, p3, p4)
+
 /-- `generate_n_random_notes(start_time, p2, p3, p4)`; `ct` is the current `convert_type` -/
 def pathNRandom (A : PArith F) (g : PathIn F) (ct : Nat) (startT : Int) (p2 p3 p4 : F) (s : Osu) :
     M (Pat × Osu) := do
-  let z := A.pct 0
-  let (p2, p3, p4) :=
-    if g.total = 2 then (z, z, z)
-    else if g.total = 3 then (A.min p2 (A.pct 10), z, z)
-    else if g.total = 4 then (A.min p2 (A.pct 30), A.min p3 (A.pct 4), z)
-    else if g.total = 5 then (A.min p2 (A.pct 34), A.min p3 (A.pct 10), A.min p4 (A.pct 3))
-    else (p2, p3, p4)
-  let dbl (x : Nat) : Bool := sampleHas x (S_CLAP ||| S_FINISH)
   -- `&&` / `||` short-circuit: `sample_info_list_at` (which can panic) is only evaluated if needed
   let canTwo ←
     (if has ct LOW_PROBABILITY then .ok false
-    else if dbl g.sample then .ok true
+    else if sampleHas g.sample (S_CLAP ||| S_FINISH) then .ok true
     else do
       let x ← sampleInfoAt g g.startT
-      .ok (dbl x) : M Bool)
-  let p2 := if canTwo then A.pct 100 else p2
-  let (n, s1) := noteCount A s p2 p3 p4 z z
-  pathRandomHoldNotes A g startT n s1
+      .ok (sampleHas x (S_CLAP ||| S_FINISH)) : M Bool)
+  pathRandomHoldNotes A g startT
+    (noteCount A s (if canTwo then A.pct 100 else (pathProbs A g.total p2 p3 p4).1)
+      (pathProbs A g.total p2 p3 p4).2.1 (pathProbs A g.total p2 p3 p4).2.2 (A.pct 0) (A.pct 0)).1
+    (noteCount A s (if canTwo then A.pct 100 else (pathProbs A g.total p2 p3 p4).1)
+      (pathProbs A g.total p2 p3 p4).2.1 (pathProbs A g.total p2 p3 p4).2.2 (A.pct 0) (A.pct 0)).2
 
 /-- the loop of `generate_tiled_hold_notes` -/
 def pathTiledLoop (A : PArith F) (g : PathIn F) (endT : Int) :
